@@ -742,13 +742,13 @@ class Lemmas:
                     good = False
             ok &= self._ob("RESIDUAL", "expand_x-exits-only-when-no-input-X", good, "return dominated by find_map(..) == None", "expand_x can return while an input X remains")
             for c in P.f.closures_of(ex.name):
-                good, got = selector_ok(P, c, "X")
-                ok &= self._ob("RESIDUAL", "expand_x-selector", good, "Some(i) iff entry == X && entry_is_input(i)", "expand_x selects entries by %s" % got)
+                good, got = selector_complete(P, c, "X")
+                ok &= self._ob("RESIDUAL", "expand_x-selector-complete", good, "every input-column X is selectable (so none is left when the loop exits)", "expand_x selects entries by %s" % got)
         ecb = P.body(TESTDATA + "::expand_c")
         if ecb is not None:
             for c in P.f.closures_of(ecb.name):
-                good, got = selector_ok(P, c, "C")
-                ok &= self._ob("RESIDUAL", "expand_c-selector", good, "Some(i) iff entry == C && entry_is_input(i)", "expand_c selects entries by %s" % got)
+                good, got = selector_complete(P, c, "C")
+                ok &= self._ob("RESIDUAL", "expand_c-selector-complete", good, "every input-column C is selected", "expand_c selects entries by %s" % got)
         eii = P.body(TESTDATA + "::entry_is_input")
         if eii is not None:
             r = set(canon(P.sl(eii).ret(rb)) for rb in P.cfg(eii).return_blocks())
@@ -928,6 +928,46 @@ def selector_ok(P, cl, variant):
     return (norm == want and pay == {"E.0"}, sorted(norm, key=str))
 
 
+def selector_complete(P, cl, variant):
+    """The selector finds every input-column entry equal to <variant>: either it scans the row's
+    entries and tests entry_is_input(i) (form a), or it scans input_indices and tests the entry in
+    that column (form b).  Iteration order is irrelevant for completeness (C05 judges the order)."""
+    good, got = selector_ok(P, cl, variant)
+    if good:
+        return True, got
+    pt = tab.predicate_table(P, cl)
+    norm = set()
+    for facts, shape in pt:
+        nf = []
+        for f, truth in facts:
+            f = re.sub(r"elem\((?:Iterator::rev\()?\[T\]::iter\(self\.input_indices\)\)?\)", "IDX", f)
+            f = re.sub(r"(Option::expect|Option::unwrap)\((\[T\]::last|Vec::pop)\(self\.cache\)(, '[^']*')?\)\.entries", "ROW", f)
+            nf.append((f, truth))
+        norm.add((frozenset(nf), shape))
+    col = "(IDX as Entry).entry_index"
+    cell = "(?:Index::index\\(ROW, %s\\)|ROW\\[%s\\])" % (re.escape(col), re.escape(col))
+    ok_rows = 0
+    for facts, shape in norm:
+        fs = dict(facts)
+        v = fs.get("variant(IDX)")
+        eqs = [k for k in fs if re.fullmatch(r"Eq\(DataEntry::%s\{\}, %s\)" % (variant, cell), k)]
+        nes = [k for k in fs if re.fullmatch(r"Ne\(DataEntry::%s\{\}, %s\)" % (variant, cell), k)]
+        if v == ("Default",) and shape == "None" and len(fs) == 1:
+            ok_rows += 1
+        elif v == ("Entry",) and eqs and shape == "Some(?)" and len(fs) == 2:
+            ok_rows += 1
+        elif v == ("Entry",) and nes and shape == "None" and len(fs) == 2:
+            ok_rows += 1
+        else:
+            return False, sorted(norm, key=str)
+    pay = set()
+    for pi in tab.paths(P, cl, to_return_only=True):
+        r = terms.strip(pi.ret())
+        if r[0] == "agg" and r[2].endswith("Option::Some"):
+            pay.add(re.sub(r"elem\((?:Iterator::rev\()?\[T\]::iter\(self\.input_indices\)\)?\)", "IDX", canon(r[3][0][1])))
+    return (ok_rows == 3 and pay == {col}, sorted(norm, key=str))
+
+
 def canon_calls(P, b):
     out = []
     for bb, t in b.calls():
@@ -941,7 +981,7 @@ def canon_calls(P, b):
 # (True, reason) / (False, why-not).
 # ---------------------------------------------------------------------------
 
-IDX_ELEM = r"(elem\((\[T\]::iter|Iterator::zip\(\[T\]::iter)\(self\.(input|expected)_indices\).*?\)(\.0)?|some!\(Iterator::next\((IntoIterator::into_iter|&\[T\]::into_iter)\((\[T\]::iter\()?self\.(input|expected)_indices\)?\)\)\))"
+IDX_ELEM = r"(elem\((?:Iterator::rev\()?(\[T\]::iter|Iterator::zip\(\[T\]::iter)\(self\.(input|expected)_indices\).*?\)(\.0)?|some!\(Iterator::next\((IntoIterator::into_iter|&\[T\]::into_iter)\((\[T\]::iter\()?self\.(input|expected)_indices\)?\)\)\))"
 SIGIDX_INDEX = re.compile(r"^(EntryIndex::signal_index\(%s\)|\(%s as (Entry|Default)\)\.signal_index)$" % (IDX_ELEM, IDX_ELEM))
 ENTRY_INDEX = re.compile(r"^\(%s as Entry\)\.entry_index$" % IDX_ELEM)
 
@@ -990,6 +1030,22 @@ def r_rowwidth(P, L, s, d):
             return (False, "generator is not called with the popped row's entries (and its changed vector)")
         return (L.need("ROWWIDTH") and L.need("STK"), "entry_index is a header position and every cached row has header width; lemma ROWWIDTH")
     row = r"(Option::unwrap|Option::expect)\(Vec::pop\(self\.cache\)(, '[^']*')?\)"
+    anyrow = r"(Option::unwrap|Option::expect)\((Vec::pop|\[T\]::last)\(self\.cache\)(, '[^']*')?\)\.entries"
+    if fn.startswith(TESTDATA + "::expand_") and re.fullmatch(anyrow, base):
+        # a cached row indexed by the entry_index of one of this iterator's index-table elements
+        if ENTRY_INDEX.match(idx):
+            return (L.need("ROWWIDTH"), "cached row indexed by a stored entry_index (a header position); lemma ROWWIDTH")
+        m2 = re.fullmatch(r"some!\(Iterator::find_map\((?:Iterator::rev\()?\[T\]::iter\(self\.(input|expected)_indices\)\)?, closure\(\{closure#(\d+)\}\)\)\)", idx)
+        if m2:
+            cl = P.body("%s::{closure#%s}" % (fn, m2.group(2)))
+            pays = set()
+            if cl is not None:
+                for pi in tab.paths(P, cl, to_return_only=True):
+                    r_ = terms.strip(pi.ret())
+                    if r_[0] == "agg" and r_[2].endswith("Option::Some"):
+                        pays.add(canon(r_[3][0][1]))
+            if pays and all(ENTRY_INDEX.match(x) for x in pays):
+                return (L.need("ROWWIDTH"), "index found by a selector that returns a stored entry_index; lemma ROWWIDTH")
     m = re.fullmatch(row + r"\.entries", base)
     if fn == TESTDATA + "::expand_x" and m:
         if re.fullmatch(r"some!\(Iterator::find_map\(Iterator::rev\(Iterator::enumerate\(\[T\]::iter\(Option::expect\(\[T\]::last\(self\.cache\), '[^']*'\)\.entries\)\)\), closure\(\{closure#0\}\)\)\)", idx):
